@@ -247,6 +247,93 @@ def alpha_s_self_cases():
         yield {'name': f"alpha_s_against_itself|branch={b},branch_ref={br}", 'ok': bool(ok), 'detail': detail}
 
 
+def verbose_entry_cases():
+    """asking an analysis to print its summary and draw its plots (verbose=True) does not change what it returns: every entry of the
+    result dictionary equals the silent call's, and the generating quantities are recovered either way"""
+    import os
+    os.environ.setdefault('MPLBACKEND', 'Agg')
+    import warnings
+    import pygaps
+    import pygaps.characterisation as pgc
+    pygaps.logger.disabled = True
+    try:
+        import matplotlib
+        matplotlib.use('Agg')
+        import matplotlib.pyplot as plt
+    except Exception:
+        plt = None
+    up = numpy.linspace(0.01, 0.6, 40)
+    n_m, c = 5e-3, 100.0
+    mk = lambda l: pygaps.PointIsotherm(pressure=list(up), loading=list(l), material='pgv_c14', adsorbate='nitrogen', temperature=77.355, pressure_mode='relative',
+                                        pressure_unit=None, loading_basis='molar', loading_unit='mol', material_basis='mass', material_unit='g', temperature_unit='K')
+    bet = mk(n_m * c * up / ((1 - up) * (1 - up + c * up)))
+    lang = mk(n_m * 40 * up / (1 + 40 * up))
+    calls = {
+        'area_BET': (bet, lambda i, v: pgc.area_BET(i, p_limits=(0.04, 0.32), verbose=v), {'n_monolayer': n_m, 'c_const': c}),
+        'area_langmuir': (lang, lambda i, v: pgc.area_langmuir(i, p_limits=(0.04, 0.5), verbose=v), {'n_monolayer': n_m, 'langmuir_const': 40.0}),
+        't_plot': (bet, lambda i, v: pgc.t_plot(i, t_limits=(0.35, 0.6), verbose=v), {}),
+        'alpha_s': (bet, lambda i, v: pgc.alpha_s(i, bet, reference_area='BET', t_limits=(0.3, 1.2), verbose=v), {}),
+        'dr_plot': (bet, lambda i, v: pgc.dr_plot(i, p_limits=(0.01, 0.2), verbose=v), {}),
+        'da_plot': (bet, lambda i, v: pgc.da_plot(i, exp=2.2, p_limits=(0.01, 0.2), verbose=v), {}),
+    }
+
+    def flat(x):
+        if isinstance(x, dict):
+            return [(k, flat(v)) for k, v in sorted(x.items())]
+        if isinstance(x, (list, tuple)):
+            return [flat(v) for v in x]
+        try:
+            return numpy.round(numpy.asarray(x, dtype=float), 12).tolist()
+        except Exception:
+            return str(x)
+
+    def same(a, b):
+        fa, fb = flat(a), flat(b)
+        if fa == fb:
+            return True
+        try:
+            import itertools
+            la = list(_leaves(fa))
+            lb = list(_leaves(fb))
+            return len(la) == len(lb) and all((x == y) or (isinstance(x, float) and isinstance(y, float) and (abs(x - y) <= 1e-9 * max(abs(x), abs(y)) or (x != x and y != y))) for x, y in zip(la, lb))
+        except Exception:
+            return False
+
+    def _leaves(x):
+        if isinstance(x, (list, tuple)):
+            for v in x:
+                yield from _leaves(v)
+        else:
+            yield x
+    for name, (iso, call, gen) in calls.items():
+        probs = []
+        with warnings.catch_warnings():
+            warnings.simplefilter('ignore')
+            try:
+                quiet, loud = call(iso, False), call(iso, True)
+                diff = [k for k in quiet if k not in loud or not same(quiet[k], loud[k])]
+                if diff:
+                    k = diff[0]
+                    probs.append(f"verbose=True changes {diff}: {k} {str(flat(loud.get(k)))[:60]} vs {str(flat(quiet[k]))[:60]}")
+                for k, v in gen.items():
+                    if not numpy.isclose(loud[k], v, rtol=1e-6):
+                        probs.append(f"verbose=True: {k} = {loud[k]}, generating value {v}")
+            except Exception as exc:
+                probs.append(f"{type(exc).__name__}: {exc}"[:160])
+            finally:
+                if plt is not None:
+                    plt.close('all')
+        yield {'name': f"verbose_result_equals_silent_result|{name}", 'ok': not probs, 'detail': '; '.join(probs[:2])}
+
+
+@replayer('c14.verbose')
+def _verbose(spec, model):
+    for r in verbose_entry_cases():
+        if r['name'] == spec['name']:
+            return {'confirmed': not r['ok'], 'observed': r['detail'], 'expected': 'the same result dictionary as the silent call'}
+    return {'confirmed': False, 'error': 'case not found'}
+
+
 @replayer('c14.alpha_self')
 def _alpha_self(spec, model):
     for r in alpha_s_self_cases():
